@@ -455,6 +455,23 @@ impl SourceBlockDecoder {
         );
     }
 }
+// Verification hooks: the matrix back-end threshold setters, available without `benchmarking`.
+#[cfg(all(feature = "verif", not(feature = "python")))]
+impl Decoder {
+    pub fn verif_set_sparse_threshold(&mut self, value: u32) {
+        for block_decoder in self.block_decoders.iter_mut() {
+            block_decoder.sparse_threshold = value;
+        }
+    }
+}
+
+#[cfg(feature = "verif")]
+impl SourceBlockDecoder {
+    pub fn verif_set_sparse_threshold(&mut self, value: u32) {
+        self.sparse_threshold = value;
+    }
+}
+
 #[cfg(feature = "std")]
 #[cfg(test)]
 mod codec_tests {
